@@ -55,7 +55,7 @@ pub fn gen_pkg_named(rng: &mut Rng, idx: usize, prefix: &str, pkg_name: &str) ->
     let mut v = vec![];
     let mut has_default = false;
     for j in 0..k {
-      let kind = *rng.pick(&["class", "interface", "type", "enum", "function", "const", "class", "interface"]);
+      let kind = *rng.pick(&["class", "interface", "type", "enum", "function", "const", "class", "interface", "namespace"]);
       let is_default = !has_default && matches!(kind, "class" | "function") && rng.chance(1, 3);
       has_default |= is_default;
       v.push(Planned { name: format!("{}N{}_{}", prefix, i, j), exported: is_default || rng.chance(3, 5), is_default, kind });
@@ -68,6 +68,14 @@ pub fn gen_pkg_named(rng: &mut Rng, idx: usize, prefix: &str, pkg_name: &str) ->
   for i in 0..nfiles {
     let mut items: Vec<Item> = vec![];
     let mut type_names: Vec<String> = plan[i].iter().filter(|p| type_capable(p)).map(|p| p.name.clone()).collect();
+    // a namespace of the module is referred to as a whole (`typeof NS`, a value position) or by a member
+    for p in plan[i].iter().filter(|p| p.kind == "namespace") {
+      for form in [format!("typeof {}", p.name), format!("{}.A", p.name), format!("{}.T", p.name)] {
+        if rng.chance(1, 2) {
+          type_names.push(form);
+        }
+      }
+    }
     // imports
     let nimp = rng.below(3);
     for _ in 0..nimp {
@@ -180,6 +188,7 @@ pub fn gen_pkg_named(rng: &mut Rng, idx: usize, prefix: &str, pkg_name: &str) ->
         }
         "type" => DeclKind::TypeAlias { ty: ty_with(rng, &others, &mut refs) },
         "enum" => DeclKind::Enum,
+        "namespace" => DeclKind::Namespace { segments: vec![] },
         "function" => {
           // the body mentions names the signature does not
           if !others.is_empty() && rng.chance(1, 2) {
@@ -276,6 +285,97 @@ pub fn gen_pkg_named(rng: &mut Rng, idx: usize, prefix: &str, pkg_name: &str) ->
     }
     items.push(Item::SideEffect("console.log(\"side effect\");".into()));
     files.push(AFile { path: path_of(i), items });
+  }
+  // now and then a chain of `export *` through three modules
+  if nfiles >= 3 && rng.chance(1, 3) {
+    let a = rng.below(nfiles);
+    let b = (a + 1 + rng.below(nfiles - 1)) % nfiles;
+    let mut c = rng.below(nfiles);
+    if c == a || c == b {
+      c = (0..nfiles).find(|x| *x != a && *x != b).unwrap();
+    }
+    for (x, y) in [(a, b), (b, c)] {
+      let from = format!(".{}", path_of(y));
+      if !files[x].items.iter().any(|it| matches!(it, Item::ExportStar { from: f } if *f == from)) {
+        let pos = files[x].items.len().saturating_sub(1);
+        files[x].items.insert(pos, Item::ExportStar { from });
+      }
+    }
+  }
+  // names imported from a module that has them only through one or several `export *` hops
+  {
+    let star_targets = |f: &AFile| -> Vec<usize> {
+      f.items.iter().filter_map(|it| if let Item::ExportStar { from } = it { files.iter().position(|g| format!(".{}", g.path) == *from) } else { None }).collect()
+    };
+    let own_names = |f: &AFile| -> Vec<String> {
+      let mut v: Vec<String> = f.items.iter().filter_map(|it| if let Item::Decl(d) = it { if d.exported && !d.is_default && matches!(d.kind, DeclKind::Class { .. } | DeclKind::Interface { .. } | DeclKind::TypeAlias { .. } | DeclKind::Enum) { Some(d.name.clone()) } else { None } } else { None }).collect();
+      // (a named re-export or a local export list of the same name would shadow what the stars provide)
+      v.sort();
+      v
+    };
+    let shadowing = |f: &AFile| -> Vec<String> {
+      f.items
+        .iter()
+        .flat_map(|it| match it {
+          Item::Decl(d) if d.exported => vec![d.name.clone()],
+          Item::ExportFrom { names, .. } => names.iter().map(|x| x.1.clone()).collect(),
+          Item::ExportLocal { names } => names.iter().map(|x| x.1.clone()).collect(),
+          _ => vec![],
+        })
+        .collect()
+    };
+    let mut additions: Vec<(usize, Vec<Item>)> = vec![];
+    for i in 0..nfiles {
+      if !rng.chance(1, 2) {
+        continue;
+      }
+      let j = rng.below(nfiles);
+      if j == i {
+        continue;
+      }
+      // names at distance >= 1 from j (distance >= 2 preferred), found breadth first along the stars
+      let mut seen = vec![j];
+      let mut frontier = vec![j];
+      let mut found: Vec<(usize, String)> = vec![];
+      let mut dist = 0;
+      while !frontier.is_empty() && dist < 4 {
+        dist += 1;
+        let mut next = vec![];
+        for m in &frontier {
+          for t in star_targets(&files[*m]) {
+            if !seen.contains(&t) {
+              seen.push(t);
+              next.push(t);
+              for n in own_names(&files[t]) {
+                found.push((dist, n));
+              }
+            }
+          }
+        }
+        frontier = next;
+      }
+      let shadow = shadowing(&files[j]);
+      found.retain(|(_, n)| !shadow.contains(n));
+      found.sort_by_key(|(d, _)| std::cmp::Reverse(*d));
+      let Some((_, name)) = found.first().cloned() else { continue };
+      let local = format!("{}Far{}", name, i);
+      if files[i].items.iter().any(|it| matches!(it, Item::Decl(d) if d.name == local || d.name == format!("Uses{}", local))) {
+        continue;
+      }
+      additions.push((
+        i,
+        vec![
+          Item::Import { from: format!(".{}", files[j].path), names: vec![(name.clone(), local.clone())], type_only: rng.chance(1, 2) },
+          Item::Decl(Decl { name: format!("Uses{}", local), exported: true, is_default: false, kind: DeclKind::Interface { extends: vec![], props: vec![("x".into(), local.clone())] }, sig_refs: vec![local], body_refs: vec![], generics: String::new() }),
+        ],
+      ));
+    }
+    for (i, items) in additions {
+      let pos = files[i].items.len().saturating_sub(1);
+      for (k, it) in items.into_iter().enumerate() {
+        files[i].items.insert(pos + k, it);
+      }
+    }
   }
   let mut exports = vec![(".".to_string(), "./mod.ts".to_string())];
   if nfiles > 2 && idx % 3 == 0 {
@@ -774,6 +874,7 @@ fn kind_of(d: &Decl) -> &'static str {
     DeclKind::Interface { .. } => "interface",
     DeclKind::TypeAlias { .. } => "type",
     DeclKind::Enum => "enum",
+    DeclKind::Namespace { .. } => "namespace",
   }
 }
 
